@@ -502,9 +502,22 @@ def _field_type_hint(ctx, f):
     """type of a struct field as far as the facts know it (from any place that projects it)"""
     def compute():
         out = {}
+
+        def note_places(pl):
+            pr = pl.get("p") or []
+            for k_ in range(len(pr) - 1):
+                if isinstance(pr[k_], dict) and "f" in pr[k_] and isinstance(pr[k_ + 1], dict) and pr[k_ + 1].get("v") in ("Some", "None"):
+                    out[pr[k_]["f"]] = "std::option::Option<?>"
         for b in ctx.prog.bodies.values():
             for bb in b.bbs:
                 for st in bb["s"]:
+                    if st["k"] == "=":
+                        note_places(st["l"])
+                        r_ = st["r"]
+                        if r_["k"] in ("ref", "discr", "rawptr", "len"):
+                            note_places(r_["p"])
+                        elif r_["k"] in ("use", "cast", "un") and not op_is_const(r_["o"]):
+                            note_places(op_place(r_["o"]))
                     if st["k"] == "=" and st["l"]["p"] and isinstance(st["l"]["p"][-1], dict) and "f" in st["l"]["p"][-1] and st["r"]["k"] == "agg":
                         out.setdefault(st["l"]["p"][-1]["f"], st["r"]["a"])
                     if st["k"] == "=" and st["r"]["k"] == "use" and not op_is_const(st["r"]["o"]):
